@@ -777,6 +777,9 @@ func (x *Exec) index(e *ast.IndexExpr, st *State) Value {
 }
 
 func (x *Exec) mapIndex(e *ast.IndexExpr, st *State, u *types.Map) Value {
+	if v := x.mapIndexModel(e, st, u); v != nil {
+		return v
+	}
 	x.abstr["map read "+x.src(e)] = true
 	x.expr(e.X, st)
 	x.expr(e.Index, st)
@@ -1244,9 +1247,15 @@ func (x *Exec) storeIndex(l *ast.IndexExpr, v Value, st *State) {
 	ct := x.info.TypeOf(l.X)
 	switch u := ct.Underlying().(type) {
 	case *types.Map:
+		mv := x.expr(l.X, st)
+		kv := x.exprT(l.Index, st, u.Key())
+		if msc, ok := mv.(Sc); ok {
+			if k, ok := x.keyID(st, u.Key(), kv); ok {
+				x.mapSet(st, u, msc.T, k, v)
+				return
+			}
+		}
 		x.abstr["map write "+x.src(l)] = true
-		x.expr(l.X, st)
-		x.expr(l.Index, st)
 		return
 	case *types.Slice:
 		cv := x.expr(l.X, st)
